@@ -93,3 +93,19 @@ Definition find_max_part (refs : list path) : option N :=
   | Some (n :: l) => Some (fold_left N.max l n + 1)
   | None => None
   end.
+
+(* ---- repo fix 59b66a8 (wave 4): api.part_ids IGNORES row groups whose file is not named part.<i>.parquet (files written by
+   another tool or by hand) instead of raising TypeError; writer.find_max_part therefore numbers new files after the highest id
+   among the MATCHING references.  `find_max_part` above (None when some reference does not match) is kept for the models whose
+   datasets consist of part.<i>.parquet files only; the two agree there (OpsProofs.skip_agrees). *)
+Fixpoint part_ids_skip (refs : list path) : list N :=
+  match refs with
+  | [] => []
+  | p :: r => match part_id p with Some n => n :: part_ids_skip r | None => part_ids_skip r end
+  end.
+
+Definition find_max_part_skip (refs : list path) : N :=
+  match part_ids_skip refs with
+  | [] => 0
+  | n :: l => fold_left N.max l n + 1
+  end.
